@@ -55,6 +55,12 @@ func SetEdns0(req *dns.Msg, policy *ecs.Policy, client netip.Addr) (*dns.OPT, in
 			size = DefaultMsgSize
 		}
 		opt.SetUDPSize(DefaultMsgSize)
+		// An OPT record is owned by the root (RFC 6891 §6.1.2). The library
+		// accepts a query whose OPT carries another owner name; this record
+		// is reused for the upstream query and for the reply, so normalise
+		// it rather than echo the client's choice (the byte-built reply OPT
+		// is always root-owned).
+		opt.Hdr.Name = "."
 
 		var clientSubnet *dns.EDNS0_SUBNET
 		for _, option := range opt.Option {
